@@ -321,6 +321,10 @@ def rule_r5(ctx, rep):
                 rep.add("R5", fi.qname, r, "descendants below the first level stay registered (children=False in the recursion)", fi.loc(r))
     if not recs:
         rep.add("R5", fi.qname, "recursive descent", "delete_node_instance never unregisters the descendants", fi.loc())
+    from .c15 import live_iteration_problems
+    for lp in live_iteration_problems(ctx, fi):
+        rep.add("R5", fi.qname, lp.iter, "the recursion iterates a live child list that the recursive call itself shrinks: every second child (and its subtree) "
+                "is skipped and stays registered", fi.loc(lp))
     rep.floor("registry deletions in delete_node_instance", 1)
 
 
